@@ -10,6 +10,13 @@ OPMODE = 'src/op_mode.rs'
 SINGLE = 'src/single_shot.rs'
 
 BENIGN = [
+    # formerly the mutant c06-open-trailing-bytes-ignored: tag_slice = ct[len - Nt ..] has exactly Nt bytes, so `[..tag_len]` is the
+    # identity and appended garbage still shifts the split.  It was reported only because R06.2 compared spellings; since mk_slice
+    # knows x[len-n..][..n] == x[len-n..] the edit is (correctly) silent.
+    dict(name='b-open-tag-slice-reprefixed', props=['C06', 'C13', 'C05', 'C14'],
+         edits=[(AEAD, """        let (ciphertext, tag_slice) = ciphertext.split_at(msg_len);""",
+                 """        let (ciphertext, tag_slice) = ciphertext.split_at(msg_len);
+        let tag_slice = &tag_slice[..tag_len];""")]),
     dict(name='b-rename-locals-seal', props=['C04'],
          edits=[(AEAD, """            let nonce = mix_nonce::<A>(&self.0.base_nonce, &self.0.seq);
             let tag = self
